@@ -641,7 +641,10 @@ closing:
 	c.closeErr = c.underlyingConn.Close()
 	verifYield("Client.Close.connClosed")
 
-	if previous == clientStateHandshaking {
+	// A failed handshake publishes clientStateError before it clears c.hs and
+	// c.ss; handshakeDone closes after those writes, so wait for it in that case
+	// too before reading c.ss below.
+	if previous == clientStateHandshaking || previous == clientStateError {
 		<-c.handshakeDone
 	}
 	c.wg.Wait()
